@@ -4,3 +4,4 @@ import ReuseVerif.Theorems.C05
 import ReuseVerif.Theorems.C17
 import ReuseVerif.Theorems.C06
 import ReuseVerif.Theorems.C01
+import ReuseVerif.Theorems.C13
